@@ -239,6 +239,20 @@ def run(res, b, tier, seed):
             probs = defined_before_use(bytes.fromhex(c.out["BASH"][1]).decode("utf-8", "replace"))
             if probs:
                 fails.append((c, "called-but-not-defined-before", dict(names=probs)))
+    # hypothesis of C09.unused_function_removal_is_safe, evaluated on every program (model side: the call graph and the statements the
+    # model parser has - the same AST as the implementation's wherever the correspondence above holds)
+    cover = pipeline.model_lines(b, ["COVER" + pipeline.parse_request(c)[5:] for c in cases])
+    ncover = dropped = 0
+    for c, a in zip(cases, cover):
+        parts = a.split(" ")
+        if parts[0] == "COVER" and len(parts) == 4:
+            if parts[1] == "1":
+                ncover += 1
+                dropped += int(parts[2]) - int(parts[3])
+            elif c.out.get("AST", ("", ""))[0] == "OK":
+                dis.append((c, "COVER: the call graph of the model parser does not cover every call of the kept code (" + a + ")", "COVER 1"))
+        elif c.out.get("AST", ("", ""))[0] == "OK":
+            dis.append((c, "COVER: " + a[:100], "COVER 1"))
     shapes = {}
     for c in cases:
         k = (len(c.files), len(c.meta["multipath"]) > 0)
@@ -255,6 +269,8 @@ def run(res, b, tier, seed):
         correspondence=dict(stage="AST and bash script of the whole model pipeline (lexer, parser incl. import linking and unused-function removal, emitter)",
                             compared=len(cases), disagreements=len(dis)),
         oracle_failures=len(fails),
+        removal_theorem_hypothesis=dict(programs=len(cases), call_graph_covers_kept_code=ncover, definitions_removed=dropped,
+                                        rule="graphCovers of C09.unused_function_removal_is_safe evaluated by the Lean driver on the statements and the call graph of every parsed program"),
     ))
     real = []
     for c, kind, detail in fails:
